@@ -335,7 +335,7 @@ func init() {
 			{Scenario: "race", Stratum: "", Quick: 160, Thorough: 6000, PerJob: 1},
 		},
 		QuickBudget: 70 * time.Second, ThoroughBudget: 28 * time.Minute, PerRunTimeout: 300 * time.Second,
-		Rule: "evaluations = seeded free-running runs (Mode R) of a binary built with -race at GOMAXPROCS=16: one listener, 1-3 dialled sessions sharing one cipher object, accepted sessions sharing the listener's; per session 4-8 goroutines loop over the supported public methods (Read, Write, WriteBuffers, Close, SetDeadline/SetReadDeadline/SetWriteDeadline, SetWindowSize, SetMtu, SetNoDelay, SetACKNoDelay, SetWriteDelay, SetRateLimit, SetOOBHandler, SendOOB, GetOOBMaxSize, GetConv, GetRTO/GetSRTT/GetSRTTVar, LocalAddr/RemoteAddr, SetReadBuffer/SetWriteBuffer/SetDSCP, Control, Snmp Copy/ToSlice) and 2 goroutines over the listener's (Accept, SetDeadline, Addr, SetReadBuffer/WriteBuffer/DSCP, Control) with traffic flowing under loss and duplication on the fake clock; every cipher / FEC configuration over the batch. The oracle is the Go race detector; reports are de-duplicated by the pair of first library frames. The seed fixes workload, configuration and fault rates, NOT the interleaving. Non-trivial = segments were exchanged; distinct = distinct event-log hashes (the log holds the configuration line only)",
+		Rule: "evaluations = seeded free-running runs (Mode R) of a binary built with -race at GOMAXPROCS=16: one listener, 1-3 dialled sessions sharing one cipher object, accepted sessions sharing the listener's; per session 4-8 goroutines loop over the supported public methods (Read, Write, WriteBuffers, Close, SetDeadline/SetReadDeadline/SetWriteDeadline, SetWindowSize, SetMtu, SetNoDelay, SetACKNoDelay, SetWriteDelay, SetRateLimit, SetOOBHandler, SendOOB, GetOOBMaxSize, GetConv, GetRTO/GetSRTT/GetSRTTVar, LocalAddr/RemoteAddr, SetReadBuffer/SetWriteBuffer/SetDSCP, Control, Snmp Copy/ToSlice) and 2 goroutines over the listener's (Accept, SetDeadline, Addr, SetReadBuffer/WriteBuffer/DSCP, Control) with traffic flowing under loss and duplication on the fake clock; every cipher / FEC configuration over the batch. The oracle is the Go race detector; reports are de-duplicated by the pair of first library frames. One race WITNESS is checked beside it, for shared state whose critical section ends in assembly the detector does not instrument (the entropy source): two datagrams of a run with different contents and the same nonce (probe nonces-compared counts the datagrams compared). The seed fixes workload, configuration and fault rates, NOT the interleaving. Non-trivial = segments were exchanged; distinct = distinct event-log hashes (the log holds the configuration line only)",
 		Real: realSession, Stub: []string{"net.PacketConn (in-memory, free-running: per-datagram timers)", "OS clock (testing/synctest fake clock)", "nonce entropy (seeded, mutex-protected)"},
 		Assumptions: []string{
 			"weaker form of the technique: the interleaving is the Go runtime's, not the seed's; a violation's replay is 'same seed, same workload', and the reproduction rate is measured and written into the replay file rather than promised",
